@@ -107,7 +107,8 @@ def _ds_spec(cfg, i, path):
 
 
 def _row_configs(tier):
-    return [dict(read_n=a, read_m=b) for a in (False, True) for b in (False, True)]
+    # written_n: the session also assigned n (pending, not flushed) - after reading it or blindly; the re-fetch happens with flushing disabled (collection loads, hooks)
+    return [dict(read_n=a, read_m=b, written_n=w) for a in (False, True) for b in (False, True) for w in (False, True)]
 
 
 def _row_case(cfg, values):
@@ -128,6 +129,8 @@ def _row_case(cfg, values):
             o._dbvals_[a] = v; o._vals_[a] = v
         if cfg['read_n']: o._rbits_ |= T._bits_except_volatile_[T.n]
         if cfg['read_m']: o._rbits_ |= T._bits_except_volatile_[T.m]
+        if cfg['written_n']:
+            o._vals_[T.n] = 777; o._wbits_ |= T._bits_[T.n]; o._status_ = 'modified'
         st.update(o=o)
         try:
             o._db_set_({T.n: new_n, T.m: new_m})
@@ -144,10 +147,13 @@ def _row_spec(cfg, i, path):
     if path.outcome == 'exc':
         # the observed value of an attribute that was read is never replaced
         V = st['vals']
-        kept = L.And(L.Implies(L.And(cfg['read_n'], dn), L.Eq(term(V[T.n]), i['seen_n'])), L.Implies(L.And(cfg['read_m'], dm), L.Eq(term(V[T.m]), i['seen_m'])))
+        seen_n = 777 if cfg['written_n'] else i['seen_n']                      # what the program holds for n: its own pending write, if any
+        kept = L.And(L.Implies(L.And(cfg['read_n'], dn), L.And(L.Eq(term(V[T.n]), seen_n), L.Eq(term(st['dbvals'][T.n]), i['seen_n']))),
+                     L.Implies(L.And(cfg['read_m'], dm), L.Eq(term(V[T.m]), i['seen_m'])))
         return L.And(isinstance(path.value, core.UnrepeatableReadError), must_fail, kept)
     V, D = st['vals'], st['dbvals']
-    return L.And(L.Not(must_fail), L.Eq(term(V[T.n]), i['reloaded_n']), L.Eq(term(V[T.m]), i['reloaded_m']),
+    # no conflict: the database values are refreshed (the optimistic check of the pending UPDATE will use them), the session's own pending write stays
+    return L.And(L.Not(must_fail), L.Eq(term(V[T.n]), 777 if cfg['written_n'] else i['reloaded_n']), L.Eq(term(V[T.m]), i['reloaded_m']),
                  L.Eq(term(D[T.n]), i['reloaded_n']), L.Eq(term(D[T.m]), i['reloaded_m']))
 
 
